@@ -375,6 +375,116 @@ func c11Run(t *engine.T, shard string) {
 				return "value", nil
 			})
 		}
+		// pointer-receiver methods called on values that are not pointers (slice elements, map values, struct fields):
+		// every call acts on its own receiver, also when results are kept or calls are nested in each other's arguments
+		pv := []struct{ src, want string }{
+			{`<% let a = xs[0].Self() %><% let b = xs[2].Self() %><%= a.Name %>|<%= b.Name %>`, "xs[0]|xs[2]"},
+			{`<%= xs[0].Pick(xs[1].Label()) %>`, "xs[0]:xs[1]"}, {`<%= xs[0].Pick(xs[1].Pick(xs[2].Label())) %>`, "xs[0]:xs[1]:xs[2]"},
+			{`<% let a = xs[0].Self() %><%= for (x) in xs { %><%= x.Label() %>,<% } %><%= a.Name %>`, "xs[0],xs[1],xs[2],xs[0]"},
+			{`<% let a = xs[0].Self() %><%= xs[1].Label() %>|<%= a.Label() %>|<%= a.Name %>`, "xs[1]|xs[0]|xs[0]"},
+			{`<%= mv["a"].Pick(mv["b"].Label()) %>`, "mv[a]:mv[b]"}, {`<% let a = mv["a"].Self() %><% let b = mv["b"].Self() %><%= a.Name %><%= b.Name %>`, "mv[a]mv[b]"},
+			{`<% let a = hold.V.Self() %><% let b = xs[1].Self() %><%= a.Name %>|<%= b.Name %>|<%= hold.V.Pick(xs[2].Label()) %>`, "hold|xs[1]|hold:xs[2]"},
+			{`<% let l = [xs[0].Self(), xs[1].Self(), xs[2].Self()] %><%= for (p) in l { %><%= p.Name %>,<% } %>`, "xs[0],xs[1],xs[2],"},
+			{`<% let f = fn(i) { return xs[i].Self() } %><% let a = f(0) %><% let b = f(1) %><%= a.Name %><%= b.Name %><%= f(2).Name %><%= a.Name %>`, "xs[0]xs[1]xs[2]xs[0]"},
+			{`<%= xs[0].Self().Pick(xs[1].Self().Label()) %>`, "xs[0]:xs[1]"},
+		}
+		for _, c := range pv {
+			c := c
+			t.Case("pointer-method-on-value "+q(c.src), true, func() (string, *engine.Fail) {
+				for round := 0; round < 2; round++ {
+					plush.CacheEnabled = false
+					ctx := plush.NewContext()
+					ctx.Set("xs", []c11PV{{"xs[0]"}, {"xs[1]"}, {"xs[2]"}})
+					ctx.Set("mv", map[string]c11PV{"a": {"mv[a]"}, "b": {"mv[b]"}})
+					ctx.Set("hold", struct{ V c11PV }{c11PV{"hold"}})
+					out, err := plush.Render(c.src, ctx)
+					if err != nil {
+						return "fails", nil
+					}
+					if out != c.want {
+						return "", engine.Failf("wrong-value", "Go navigation yields %q, template rendered %q (render %d)", c.want, out, round+1)
+					}
+				}
+				return "value", nil
+			})
+		}
+		// a field or method name that occurs at several depths of embedded structs: Go's selector rule (the
+		// shallowest one; none when two are equally shallow) - the expected value is what reflect's FieldByName /
+		// MethodByName yield on the same value
+		item := EmbItem{EmbBase: EmbBase{EmbAudit: EmbAudit{ID: "audit-id", Deep: "audit-deep"}, Rev: "base-rev", Dup: "dup-base"}, EmbTags: EmbTags{ID: "tags-id", Dup: "dup-tags", Own: "tags-own"}, Own: "own", EmbPtr: &EmbPtr{PID: "ptr-pid", Deep: "ptr-deep"}}
+		emb := []struct {
+			src  string
+			root interface{}
+		}{
+			{"ID", item}, {"Rev", item}, {"Own", item}, {"Dup", item}, {"Deep", item}, {"PID", item}, {"EmbBase.ID", item}, {"EmbTags.ID", item}, {"EmbBase.EmbAudit.ID", item}, {"EmbTags.Own", item}, {"EmbPtr.Deep", item},
+			{"ID", &item}, {"Dup", &item}, {"Deep", &item}, {"Who()", item}, {"Who()", &item}, {"Amb()", item}, {"EmbBase.Who()", item},
+			{"ID", EmbItem2{EmbTags: EmbTags{ID: "tags-id"}, EmbBase: EmbBase{EmbAudit: EmbAudit{ID: "audit-id"}}}}, {"ID", EmbItem3{EmbBase: EmbBase{EmbAudit: EmbAudit{ID: "audit-id"}}}}, {"Deep", EmbItem{}}, {"PID", EmbItem{}},
+		}
+		for _, c := range emb {
+			c := c
+			t.Case(fmt.Sprintf("embedded %T it.%s", c.root, c.src), true, func() (string, *engine.Fail) {
+				plush.CacheEnabled = false
+				ctx := plush.NewContext()
+				ctx.Set("it", c.root)
+				// Go's answer
+				cur := reflect.ValueOf(c.root)
+				ok := true
+				for _, seg := range strings.Split(c.src, ".") {
+					for cur.Kind() == reflect.Ptr {
+						if cur.IsNil() {
+							ok = false
+							break
+						}
+						cur = cur.Elem()
+					}
+					if !ok {
+						break
+					}
+					if strings.HasSuffix(seg, "()") {
+						m := cur.MethodByName(strings.TrimSuffix(seg, "()"))
+						if !m.IsValid() {
+							ok = false
+							break
+						}
+						cur = m.Call(nil)[0]
+						continue
+					}
+					func() {
+						defer func() {
+							if recover() != nil {
+								ok = false
+							}
+						}()
+						f := cur.FieldByName(seg)
+						if !f.IsValid() {
+							ok = false
+							return
+						}
+						cur = f
+					}()
+					if !ok {
+						break
+					}
+				}
+				out, err := plush.Render(`[<%= it.`+c.src+` %>]`, ctx)
+				if err != nil {
+					return "fails", nil
+				}
+				if ok && cur.Kind() == reflect.String {
+					if out != "["+cur.String()+"]" && out != "[]" {
+						return "", engine.Failf("wrong-value", "Go navigation yields %q, template rendered %q", cur.String(), out)
+					}
+					if out == "[]" && cur.String() != "" {
+						return "empty", nil
+					}
+					return "value", nil
+				}
+				if !ok && out != "[]" {
+					return "", engine.Failf("wrong-value", "Go cannot complete this selector (ambiguous, or through a nil embedded pointer), template rendered %q", out)
+				}
+				return "empty", nil
+			})
+		}
 		// a map key of another kind than the map's keys cannot be looked up: never the entry of a converted key
 		for _, c := range []string{`<%= msv[97] %>`, `<%= msv[97.0] %>`, `<%= miv[1.9] %>`, `<%= miv[1.0] %>`, `<%= miv["1"] %>`, `<%= m8v[257] %>`, `<%= m8v[-255] %>`, `<%= mfv[1] %>`, `<%= msv[true] %>`, `<%= mbv[1] %>`,
 			`<% let k = 97 %><%= msv[k] %>`, `<%= msv[i97] %>`, `<%= miv[f19] %>`, `<%= msv[97].Name %>`, `<%= for (k, v) in [97] { %><%= msv[v] %><% } %>`} {
@@ -674,3 +784,44 @@ type c11P struct {
 }
 
 func (p c11P) Greets(other string) string { return p.Name + " greets " + other }
+
+// c11PV has only pointer-receiver methods and is stored by value.
+type c11PV struct{ Name string }
+
+func (p *c11PV) Self() *c11PV         { return p }
+func (p *c11PV) Label() string        { return p.Name }
+func (p *c11PV) Pick(s string) string { return p.Name + ":" + s }
+
+type EmbAudit struct{ ID, Deep string }
+
+func (EmbAudit) Who() string { return "audit" }
+
+type EmbBase struct {
+	EmbAudit
+	Rev, Dup string
+}
+
+func (EmbBase) Amb() string { return "amb-base" }
+
+type EmbTags struct{ ID, Dup, Own string }
+
+func (EmbTags) Who() string { return "tags" }
+func (EmbTags) Amb() string { return "amb-tags" }
+
+type EmbPtr struct{ PID, Deep string }
+
+// EmbItem: ID is promoted from EmbTags (depth 1) although EmbBase, declared first, provides it at depth 2; Dup and Amb
+// are ambiguous (depth 1 twice); Deep is ambiguous at depth 1 (EmbPtr) vs depth 2 - EmbPtr wins; Own is the struct's own.
+type EmbItem struct {
+	EmbBase
+	EmbTags
+	*EmbPtr
+	Own string
+}
+
+type EmbItem2 struct {
+	EmbTags
+	EmbBase
+}
+
+type EmbItem3 struct{ EmbBase }
